@@ -371,3 +371,37 @@ class InputPropBase(PropBase):
     @classmethod
     def signature(cls, case, verdict):
         return "%s %s" % (cls.ID, case.sweep or case.tag.split(":")[0] or "case")
+
+
+def numeric_boundaries():
+    """parameter values around every boundary an integer conversion can trip over: powers of two (2^7 .. 2^64), powers of
+    ten (10^2 .. 10^20), INT_MAX/10 with every last digit, the same with further digits appended, leading zeros"""
+    vals = set()
+    for k in (7, 8, 15, 16, 31, 32, 63, 64):
+        for d in (-2, -1, 0, 1, 2):
+            vals.add(2 ** k + d)
+    for k in range(2, 21):
+        vals.update([10 ** k - 1, 10 ** k, 10 ** k + 1])
+    base = (2 ** 31 - 1) // 10                       # 214748364
+    for last in range(10):
+        vals.add(base * 10 + last)                    # 2147483640 .. 2147483649
+        for more in (0, 7, 9):
+            vals.add((base * 10 + last) * 10 + more)  # … with another digit appended
+    base64 = (2 ** 63 - 1) // 10
+    for last in range(10):
+        vals.add(base64 * 10 + last)
+    return sorted(v for v in vals if v >= 0)
+
+
+def numeric_sweep(prop="C05"):
+    """key, keypad, modifier and repeat-count positions filled with every boundary value (7- and 8-bit introducers)"""
+    cs = []
+    for v in numeric_boundaries():
+        for txt in (str(v), "00" + str(v)):
+            t = txt.encode()
+            seqs = [b"\x1b[" + t + b"A", b"\x1b[" + t + b"~", b"\x1b[1;" + t + b"A", b"\x1b[11;" + t + b"~", b"\x9b" + t + b"B",
+                    b"\x1b[" + t + b";" + t + b"H", b"\x1b\x1b[" + t + b"Z", b"\x1b[?" + t + b"h", b"\x1bO" + t + b"P"]
+            for sq in seqs:
+                cs.append(Case("I " + hx(sq + b"@@"), sweep="numeric-boundaries", oracle=(prop == "C20"), cfgs=["C20"] if prop == "C20" else None,
+                               tag="numeric-boundary"))
+    return cs
